@@ -67,39 +67,49 @@ class Gen17(Gen):
         return Node("rotate", var, [m, ctr], [self.solid(depth - 1, var)])
 
 
-def pf_py(pf, scalar=False, matrix=False):
+def pf_py(pf, scalar=False, matrix=False, dfl=None):
     """like geomgen.PF.py, but the generated function broadcasts its arguments against each other: after a
     partial evaluation the library calls it with the fixed values (one row) next to the remaining
-    parameter rows (k rows)"""
+    parameter rows (k rows).  dfl: variables that get a Python default value in the signature
+    (`def f(t, k=tensor([[2.]]))`)"""
     vs = pf.vars()
     if not vs:
         return pf.py(scalar=scalar, matrix=matrix)
     import torch
-    comps = [geomgen.pt_py(t) if geomgen.pt_vars(t) else f"torch.full_like({vs[0]}[:, :1], {float(geomgen.pt_eval(t, {}))!r})" for t in pf.terms]
-    src = f"def _f({', '.join(vs)}):\n    return torch.column_stack(torch.broadcast_tensors({', '.join(comps)}))\n"
+    dfl = {k_: v_ for k_, v_ in (dfl or {}).items() if k_ in vs}
+    vs = [x for x in vs if x not in dfl] + [x for x in vs if x in dfl]
     ns = {"torch": torch}
+    sig = []
+    for x in vs:
+        if x in dfl:
+            ns["_d_" + x] = torch.tensor([[float(a) for a in dfl[x]]], dtype=torch.float32)
+            sig.append(f"{x}=_d_{x}")
+        else:
+            sig.append(x)
+    comps = [geomgen.pt_py(t) if geomgen.pt_vars(t) else f"torch.full_like({vs[0]}[:, :1], {float(geomgen.pt_eval(t, {}))!r})" for t in pf.terms]
+    src = f"def _f({', '.join(sig)}):\n    return torch.column_stack(torch.broadcast_tensors({', '.join(comps)}))\n"
     exec(src, ns)
     f = ns["_f"]
     f._src = src
     return f
 
 
-def to_tp(node, tp):
+def to_tp(node, tp, dfl=None):
     """geomgen.Node.to_tp with broadcasting parameter functions"""
     k = node.kind
     D = tp.domains
     if k == "interval":
-        return D.Interval(node.space(tp), pf_py(node.pfs[0], scalar=True), pf_py(node.pfs[1], scalar=True))
+        return D.Interval(node.space(tp), pf_py(node.pfs[0], scalar=True, dfl=dfl), pf_py(node.pfs[1], scalar=True, dfl=dfl))
     if k == "par":
-        return D.Parallelogram(node.space(tp), *[pf_py(p) for p in node.pfs])
+        return D.Parallelogram(node.space(tp), *[pf_py(p, dfl=dfl) for p in node.pfs])
     if k == "tri":
-        return D.Triangle(node.space(tp), *[pf_py(p) for p in node.pfs])
+        return D.Triangle(node.space(tp), *[pf_py(p, dfl=dfl) for p in node.pfs])
     if k == "circle":
-        return D.Circle(node.space(tp), pf_py(node.pfs[0]), pf_py(node.pfs[1], scalar=True))
+        return D.Circle(node.space(tp), pf_py(node.pfs[0], dfl=dfl), pf_py(node.pfs[1], scalar=True, dfl=dfl))
     if k == "sphere":
-        return D.Sphere(node.space(tp), pf_py(node.pfs[0]), pf_py(node.pfs[1], scalar=True))
+        return D.Sphere(node.space(tp), pf_py(node.pfs[0], dfl=dfl), pf_py(node.pfs[1], scalar=True, dfl=dfl))
     if k in ("union", "cut", "inter", "prod"):
-        a, b = to_tp(node.kids[0], tp), to_tp(node.kids[1], tp)
+        a, b = to_tp(node.kids[0], tp, dfl), to_tp(node.kids[1], tp, dfl)
         if k == "union" and node.flags.get("disjoint"):
             from torchphysics.problem.domains.domainoperations.union import UnionDomain
             return UnionDomain(a, b, disjoint=True)
@@ -108,15 +118,15 @@ def to_tp(node, tp):
             return CutDomain(a, b, contained=True)
         return a + b if k == "union" else a - b if k == "cut" else a & b if k == "inter" else a * b
     if k == "translate":
-        return D.Translate(to_tp(node.kids[0], tp), pf_py(node.pfs[0]))
+        return D.Translate(to_tp(node.kids[0], tp, dfl), pf_py(node.pfs[0], dfl=dfl))
     if k == "rotate":
-        return D.Rotate(to_tp(node.kids[0], tp), pf_py(node.pfs[0], matrix=True), pf_py(node.pfs[1]))
+        return D.Rotate(to_tp(node.kids[0], tp, dfl), pf_py(node.pfs[0], matrix=True, dfl=dfl), pf_py(node.pfs[1], dfl=dfl))
     if k == "bdry":
-        return to_tp(node.kids[0], tp).boundary
+        return to_tp(node.kids[0], tp, dfl).boundary
     if k == "bdryL":
-        return to_tp(node.kids[0], tp).boundary_left
+        return to_tp(node.kids[0], tp, dfl).boundary_left
     if k == "bdryR":
-        return to_tp(node.kids[0], tp).boundary_right
+        return to_tp(node.kids[0], tp, dfl).boundary_right
     raise ValueError(k)
 
 
@@ -192,6 +202,10 @@ def rename_case(case, mp):
     out["free"] = [r(p_) for p_ in case["free"]]
     out["long_names"] = True
     return out
+
+
+def parse_pt_str(t):
+    return geomgen.parse_pt(t.split())
 
 
 def frs(d):
@@ -1037,6 +1051,7 @@ def run(ctx, rep, cases=None):
     user_volume_stream(ctx, rep)
     multi_slice_stream(ctx, rep)
     dtype_stream(ctx, rep)
+    resupply_stream(ctx, rep)
     malformed_stream(ctx, rep)
     rebinding_stream(ctx, rep)
     opaque_stream(ctx, rep)
@@ -1420,7 +1435,11 @@ def dtype_judge(cases, rep):
                     rep.count("dtype-stream:tie-or-mixed(skipped)")
                     continue
                 rep.count("dtype-stream:membership-decided")
-                if got[idx] != ref[idx] or (c1_ != "none" and got[idx] != (c1_ == "1")):
+                # boundary tests of the library use tolerances relative to the coordinates and the dtype of the points
+                # (/repo 20d0b69, 214537b, 5627105); the exact model has the constant ones: for boundary kinds it only
+                # detects exact ties, the judgement is D(**values) against D at the same values
+                third = cs["kind"] not in ("bdry", "side")
+                if got[idx] != ref[idx] or (third and c1_ != "none" and got[idx] != (c1_ == "1")):
                     rep.fail(f"{call}._contains answers {got[idx]} at {var} = {[float(a) for a in pt[var]]} ({pdt}); D._contains with the same float64 "
                              f"values supplied as parameters answers {ref[idx]}; exact evaluation: {'inside' if c1_ == '1' else 'outside'} "
                              f"with slack {float(Fr(mg)):.3g}", dict(desc, point=frs(pt)))
@@ -1467,6 +1486,191 @@ def dtype_judge(cases, rep):
                          f"outside D at these values (D's own samples are all inside)", dict(desc, how=how))
             else:
                 rep.count("dtype-stream:samples-differ-but-inside")
+
+
+def resupply_stream(ctx, rep):
+    """object histories and re-supplied variables: a parent D whose parameter functions may carry Python defaults
+    (`def f(t, k=2.0)`), a first evaluation E1 = D(**s1), a sibling D(**sx), then E2 = E1(**s2) where s2 supplies
+    variables AGAIN that a default or s1 already fixed (completing the evaluation or not).  Oracles:
+      * E1(**s2) behaves like E1 with s2 supplied as parameter rows (the property, applied to the domain E1):
+        membership off the margin, volume (also a set_volume function), bounding box, necessary_variables;
+      * E1 — the EARLIER copy — and the parent D answer after the later calls exactly what they answered before.
+    Model: `((D.peval defaults).pevalC s1).pevalC s2` (drivers/C17.lean `resupply`)."""
+    tp = common.use_repo()
+    import torch
+    rng = ctx.rng
+    cases, lines = [], []
+    for i in range(ctx.scale(40, 400)):
+        params = rng.sample(PARAMS, rng.choice([2, 2, 3]))
+        g = Gen17(rng, params=params, p_dep=0.8)
+        kind = rng.choice(["solid2", "solid2", "solid1", "bdry", "side", "prim"])
+        if kind == "solid2":
+            node = g.solid(2, "x")
+        elif kind == "solid1":
+            g.allow_rotate = False
+            node = g.solid(2, "y")
+        elif kind == "bdry":
+            g.allow_rotate = g.allow_translate = False
+            node = Node("bdry", None, [], [g.solid(rng.choice([1, 2]), rng.choice(["x", "y"]))])
+        elif kind == "side":
+            node = Node(rng.choice(["bdryL", "bdryR"]), None, [], [g.prim1("y")])
+        else:
+            node = g.prim(rng.choice(["x", "y", "z"]))
+        # products of two variables make functions that need both (a call can fix one and complete with the other)
+        if kind in ("prim", "solid1", "side") and len(params) >= 2 and rng.random() < 0.6:
+            tgt = node.kids[0] if kind == "side" else node
+            if tgt.kind == "interval":
+                lo = tgt.pfs[0].terms[0]
+                tgt.pfs[1] = PF([("+", lo, ("+", c(dy(rng, 0.5, 2)), ("*", v(params[0]), v(params[1]))))])
+        free = node.free_vars()
+        if not free:
+            continue
+        val = lambda: [Fr(rng.randint(0, 16), 16)]
+        dflt = {p_: val() for p_ in free if rng.random() < 0.3}                      # Python defaults
+        cand1 = [p_ for p_ in free if p_ not in dflt]
+        s1 = {p_: val() for p_ in cand1 if rng.random() < 0.5}
+        if not s1 and cand1:
+            s1 = {rng.choice(cand1): val()}
+        sx = {p_: val() for p_ in s1}                                              # a sibling made from the same parent
+        again = [p_ for p_ in list(s1) + list(dflt) if rng.random() < 0.6]           # supplied again, other values
+        fresh = [p_ for p_ in free if p_ not in s1 and p_ not in dflt and rng.random() < 0.7]
+        s2 = {p_: val() for p_ in again + fresh}
+        if not s2:
+            s2 = {rng.choice(list(s1) or list(dflt) or free): val()}
+        rest = [p_ for p_ in free if p_ not in s1 and p_ not in s2 and p_ not in dflt]
+        prow = [{p_: val() for p_ in rest}]
+        env = dict(dflt)
+        env.update(s1); env.update(s2); env.update(prow[0])
+        rows = []
+        var = node.vars()[0]
+        near = []
+        try:
+            c05.near_points(node, env, rng, near)
+        except Exception:
+            near = []
+        for q_ in near[:20]:
+            if len(q_) == geomgen.DIM[var]:
+                rows.append(({var: [f32(a) for a in q_]}, 0))
+        for _ in range(10):
+            rows.append(({var: [Fr(rng.randint(-5 * 32, 5 * 32), 32) for _ in range(geomgen.DIM[var])]}, 0))
+        uvol = None
+        if rng.random() < 0.35:
+            used = rng.sample(free, rng.randint(1, len(free)))
+            term = c(dy(rng, 1, 4))
+            for p_ in used:
+                term = ("+", term, ("*", c(dy(rng, 1, 3, 4)), v(p_)))
+            if len(used) >= 2 and rng.random() < 0.5:
+                term = ("+", term, ("*", v(used[0]), v(used[1])))
+            uvol = PF([term])
+        cs = dict(node=node, kind=kind, dflt=dflt, s1=s1, sx=sx, s2=s2, rest=rest, prow=prow, rows=rows, uvol=uvol, id=i)
+        cases.append(cs)
+    resupply_judge(cases, rep)
+
+
+def resupply_judge(cases, rep):
+    tp = common.use_repo()
+    import torch
+    lines = [f"resupply {TOL} {cs['node'].tokens()} {env_tokens(cs['dflt'])} {env_tokens(cs['s1'])} {env_tokens(cs['s2'])} "
+             f"{rows_tokens([(frs(pt), j) for pt, j in cs['rows']], [frs(p_) for p_ in cs['prow']])}" for cs in cases]
+    replies = common.run_driver("C17", lines)
+    fl = lambda d_: {k_: float(v_[0]) for k_, v_ in d_.items()}
+    for cs, rl in zip(cases, replies):
+        node, dflt, s1, s2, rest, prow = cs["node"], cs["dflt"], cs["s1"], cs["s2"], cs["rest"], cs["prow"]
+        re_ = sorted(set(s2) & (set(s1) | set(dflt)))
+        rep.count("resupply:" + cs["kind"])
+        rep.count("resupply:variables-supplied-again:%d" % len(re_))
+        if dflt:
+            rep.count("resupply:python-defaults")
+        desc = dict(stream="resupply", expression=node.tokens(), dom=node.describe(), python_defaults=frs(dflt), first_call=frs(s1), sibling=frs(cs["sx"]),
+                    second_call=frs(s2), supplied_again=re_, remaining=rest, prow=[frs(p_) for p_ in prow], kind=cs["kind"], id=cs["id"],
+                    user_volume=cs["uvol"].describe() if cs["uvol"] else None, rows=[(frs(pt), j) for pt, j in cs["rows"]])
+        text = f"D [python defaults {fl(dflt)}]; E1 = D(**{fl(s1)}); E2 = E1(**{fl(s2)})"
+        D, e0 = attempt(lambda: to_tp(node, tp, dflt))
+        if e0:
+            rep.count("resupply:not-built")
+            continue
+        if cs["uvol"]:
+            D.set_volume(pf_py(cs["uvol"], scalar=True, dfl=dflt))
+        tens = lambda d_: {k_: torch.tensor([[float(v_[0])]], dtype=torch.float32) for k_, v_ in d_.items()}
+        pts = mk_points(tp, torch, node, [frs(pt) for pt, _ in cs["rows"]])
+        n = len(cs["rows"])
+        E1, e1 = attempt(lambda: D(**tens(s1)))
+        if e1:
+            if not e1.startswith("timeout"):
+                rep.fail(f"{text}: the first call raised {e1}", desc)
+            continue
+        # what E1 and the parent answer before anything else is derived from them
+        namesA = list(s2) + rest                       # E1 gets the values of the second call (also the re-supplied ones) as rows
+        envA = dict(s2); envA.update(prow[0])
+        rowsA = mk_params(tp, torch, namesA, [frs(envA)] * n)
+        k_A = mk_params(tp, torch, namesA, [frs(envA)])
+        before, eb = attempt(E1._contains, pts, rowsA)
+        vol_before, _ = attempt(lambda: flat(torch.as_tensor(E1.volume(k_A))))
+        envP = dict(dflt); envP.update(s1); envP.update(envA)
+        rowsP = mk_params(tp, torch, list(envP), [frs(envP)] * n)
+        parent_before, _ = attempt(D._contains, pts, rowsP)
+        # a sibling from the same parent, then the second call on the EARLIER copy
+        _, _ = attempt(lambda: D(**tens(cs["sx"])))
+        E2, e2 = attempt(lambda: E1(**tens(s2)))
+        if e2:
+            if not e2.startswith("timeout"):
+                rep.fail(f"{text}: the second call raised {e2}", desc)
+            continue
+        rest_rows = mk_params(tp, torch, rest, [frs(prow[0])] * n)
+        k_rest = mk_params(tp, torch, rest, [frs(prow[0])])
+        got, eg = attempt(E2._contains, pts, rest_rows)
+        rls = rl.split(";")
+        nv2, nv1 = vset(rls[0].split()[3]), vset(rls[0].split()[4])
+        if E2.necessary_variables is not None and sorted(E2.necessary_variables) != nv2:
+            rep.disagree("drivers/C17.lean resupply: necessary_variables after the second call", desc, sorted(E2.necessary_variables), nv2)
+        if set(E2.necessary_variables or []) & set(s2):
+            rep.fail(f"{text}: E2 still declares {sorted(set(E2.necessary_variables) & set(s2))}, which the second call supplied", desc)
+        if eb is None and eg and not eg.startswith("timeout"):
+            rep.fail(f"{text}: E2._contains raised {eg} while E1 with the second call's values as parameter rows answers", desc)
+        if eb is None and eg is None:
+            b_ = [bool(x) for x in before.reshape(-1).tolist()]
+            g_ = [bool(x) for x in got.reshape(-1).tolist()]
+            for idx, (pt, _) in enumerate(cs["rows"]):
+                c2_, c1_, mg = rls[idx].split()[:3]
+                if mg == "none" or Fr(mg) <= MARGIN:
+                    rep.count("resupply:within-margin(skipped)")
+                    continue
+                rep.count("resupply:decided")
+                if g_[idx] != b_[idx]:
+                    rep.fail(f"{text}: E2._contains answers {g_[idx]} at {fl(pt) if len(pt[node.vars()[0]]) == 1 else {k_: [float(a) for a in v_] for k_, v_ in pt.items()}}, "
+                             f"but E1 with the values of the second call supplied as parameter rows answers {b_[idx]} "
+                             f"(variables supplied again: {re_}; exact evaluation of the as-coded model: {'inside' if c1_ == '1' else 'outside'}, slack {float(Fr(mg)):.3g})",
+                             dict(desc, point=frs(pt)))
+                    break
+                # single boundary points keep their side as a function with defaults (repair 988645a has to keep `.side.fun`,
+                # an existing test asserts it), the interval's bound becomes a constant once complete: when a completed
+                # variable is supplied again the two differ — outside the property (re-binding), the model is not compared there
+                if cs["kind"] == "side" and re_:
+                    rep.count("resupply:side-resupplied(model not compared)")
+                elif c2_ != "none" and g_[idx] != (c2_ == "1"):
+                    rep.disagree("drivers/C17.lean resupply: membership after the second call", dict(desc, point=frs(pt)), g_[idx], rls[idx])
+        dependent = False
+        for name, fE, fR in (("volume", lambda: E2.volume(k_rest), lambda: E1.volume(k_A)), ("bounding_box", lambda: E2.bounding_box(k_rest), lambda: E1.bounding_box(k_A))):
+            a_, ea = attempt(lambda: flat(torch.as_tensor(fR())))
+            b2, eb2 = attempt(lambda: flat(torch.as_tensor(fE())))
+            if ea or eb2:
+                if eb2 and not ea and not eb2.startswith("timeout"):
+                    rep.fail(f"{text}: E2.{name} raised {eb2} while E1.{name} with the second call's values as parameter rows works", desc)
+                continue
+            rep.count("resupply:" + name + "-compared")
+            if not close_lists(b2, a_):
+                rep.fail(f"{text}: E2.{name}(remaining) = {b2} but E1.{name}(remaining + the values of the second call as rows) = {a_}"
+                         + (" [user-set volume]" if cs["uvol"] and name == "volume" else "") + f" (variables supplied again: {re_})", desc)
+        # histories: the earlier copy and the parent answer as before
+        after, ea_ = attempt(E1._contains, pts, rowsA)
+        if eb is None and ea_ is None and [bool(x) for x in after.reshape(-1).tolist()] != [bool(x) for x in before.reshape(-1).tolist()]:
+            rep.fail(f"{text}: after the sibling D(**{fl(cs['sx'])}) and E2 were made, the EARLIER copy E1 answers differently than before (same points, same rows)", desc)
+        vol_after, _ = attempt(lambda: flat(torch.as_tensor(E1.volume(k_A))))
+        if vol_before is not None and vol_after is not None and not close_lists(vol_before, vol_after, 1e-7):
+            rep.fail(f"{text}: the volume of the earlier copy E1 changed from {vol_before} to {vol_after} after later calls", desc)
+        parent_after, _ = attempt(D._contains, pts, rowsP)
+        if parent_before is not None and parent_after is not None and parent_before.reshape(-1).tolist() != parent_after.reshape(-1).tolist():
+            rep.fail(f"{text}: the parent D answers differently after the calls (same points, same rows)", desc)
 
 
 def malformed_stream(ctx, rep):
@@ -1625,6 +1829,14 @@ def replay(ctx, obj):
                   rows=[(unfrs(pt), j) for pt, j in c_["rows"]], large=c_["large"], mixed=c_["mixed"], id=inp["id"])
         rep.case(dict(dom=inp["dom"]), True)
         dtype_judge([cs], rep)
+        return common.finish(ctx, rep, lean)
+    if inp.get("stream") == "resupply":
+        cs = dict(node=geomgen.from_json(inp["dom"]), kind=inp["kind"], dflt=unfrs(inp["python_defaults"]), s1=unfrs(inp["first_call"]),
+                  sx=unfrs(inp["sibling"]), s2=unfrs(inp["second_call"]), rest=inp["remaining"], prow=[unfrs(p_) for p_ in inp["prow"]],
+                  rows=[(unfrs(pt), j) for pt, j in inp["rows"]], id=inp["id"],
+                  uvol=PF([parse_pt_str(t_) for t_ in inp["user_volume"]]) if inp.get("user_volume") else None)
+        rep.case(dict(dom=inp["dom"]), True)
+        resupply_judge([cs], rep)
         return common.finish(ctx, rep, lean)
     if inp.get("stream") == "malformed":
         malformed_stream(ctx, rep)
